@@ -498,6 +498,8 @@ def sm_rstrip(vm, o, args, kw):
 
 
 def sm_endswith(vm, o, args, kw):
+    if isinstance(args[0], tuple):
+        return any(sm_endswith(vm, o, [p], kw) for p in args[0])
     suf = str_atoms(args[0])
     a = str_atoms(o)
     if len(suf) > len(a):
